@@ -4,10 +4,10 @@
    (dpop_check of the tree pydcop built) is a theorem about the model of the builder. *)
 From PyDcop Require Import Base Net M_Dpop M_DpopValid P_Dpop2Tree M_PseudoTree M_DpopBuilt P_DpopBuilt P_DpopBuilt2.
 
-Theorem built_check_l R roots t : wf_rdcop R -> M_PseudoTree.build (graph_of R) = Some (roots, t) ->
+Theorem built_check_l R : wf_rdcop R -> forall roots t, M_PseudoTree.build (graph_of R) = Some (roots, t) ->
   dpop_check (dpop_of_built R t) = true.
 Proof.
-  intros W HB. destruct (built_partition_l R W roots t HB) as (Hp & Hn & _).
+  intros W roots t HB. destruct (built_partition_l R W roots t HB) as (Hp & Hn & _).
   destruct (built_valid_l R W roots t HB) as (dep & B & V).
   eapply dpop_check_complete_l; eauto.
 Qed.
